@@ -280,7 +280,8 @@ OTHER_VALUE = {"secret": "GEZDGNBVGY3TQOJQ", "issuer": "zz", "algorithm": "SHA25
 
 
 def uri_corruptions(has_issuer):
-    names = ["secret_missing", "secret_empty", "secret_undecodable", "secret_bad_char", "no_query",
+    names = ["secret_missing", "secret_empty", "secret_blank", "secret_blank_plus", "secret_undecodable", "secret_bad_char", "no_query",
+             "extra_param:cls", "extra_param:self", "extra_param:label",
              "type_unknown:xotp", "type_unknown:empty", "type_unknown:totp2", "scheme_wrong",
              "label_missing", "label_absent", "label_blank"]
     if has_issuer:
@@ -307,6 +308,13 @@ def corrupt_uri(u, name):
         return join([it for it in items if it[0] != "secret"] or [["x", "y"]])
     if name == "secret_empty":
         return join([[k, "" if k == "secret" else v] for k, v in items])
+    if name == "secret_blank":
+        return join([[k, "%20" if k == "secret" else v] for k, v in items])
+    if name == "secret_blank_plus":
+        return join([[k, "+%09" if k == "secret" else v] for k, v in items])
+    if name.startswith("extra_param:"):
+        # a parameter the format does not define, named like something the loader uses internally
+        return join(items + [[name.split(":")[1], "1"]])
     if name == "secret_undecodable":
         return join([[k, "%21%21%21%21" if k == "secret" else v] for k, v in items])
     if name == "secret_bad_char":
@@ -380,6 +388,16 @@ def corrupt_dict(d, name):
 
 
 def eval_corrupt(case):
+    if case.get("mode") == "O" and __debug__:
+        return core.call_in_child("mc.checks.c15", "eval_corrupt", case, optimized=True)
+    found = _eval_corrupt(case)
+    if not __debug__:
+        # (several loaders validate inside assert statements: the same refusals are demanded under python -O)
+        found = [(k + ":python-O", d) for k, d in found]
+    return found
+
+
+def _eval_corrupt(case):
     fmt, name, via = case["format"], case["corruption"], case["via"]
     sub = dict(case, format="uri" if fmt == "uri" else "dict")
     try:
@@ -413,6 +431,11 @@ def eval_corrupt(case):
         return []
     except Exception as e:  # noqa: BLE001
         return [(f"C15|{fmt}|corrupt:{name}:raises:{type(e).__name__}", f"{via} loader on {bad!r} raised {e!r}; an inconsistent/incomplete source must be refused with ValueError")]
+    if name.startswith("extra_param:") and name != "extra_param:label":
+        # an undefined parameter may be ignored (with a warning): then the source must load as if it were absent
+        if fields_of(got) == fields_of(load(src)):
+            return []
+        return [(f"C15|{fmt}|corrupt:{name}:changes_result", f"{via} loader on {bad!r} gives {fields_of(got)!r}, without the extra parameter {fields_of(load(src))!r}")]
     return [(f"C15|{fmt}|corrupt:{name}:accepted", f"{via} loader accepted {bad!r} -> {fields_of(got)!r}")]
 
 
@@ -611,9 +634,9 @@ def work(task):
                             for name in corruptions_for(fmt, has_issuer, via):
                                 case = {"kind": "corrupt", "factory": facname, "key": key, "alg": alg, "digits": digits,
                                         "period": period, "label": label, "issuer": issuer, "format": fmt,
-                                        "corruption": name, "via": via}
+                                        "corruption": name, "via": via, "mode": "default" if __debug__ else "O"}
                                 acc.ev()
-                                acc.cls("corrupt", fmt, name, via, facname, n, alg, digits, period, str_class(issuer))
+                                acc.cls("corrupt", fmt, name, via, facname, n, alg, digits, period, str_class(issuer), case["mode"])
                                 found = eval_corrupt(case)
                                 for k, d in found:
                                     acc.violation(k, d, case)
@@ -660,6 +683,11 @@ def wallet_cases(seed, quick):
                                           "wdefault": wdefault, "rtags": list(rtags), "wcost": wcost, "rcost": rcost,
                                           "format": fmt, "seed": seed})
     return cases
+
+
+def child_run(payload):
+    """entry point inside a `python -O` child: the corrupt part again, with assertions disabled"""
+    return core.pmap(work, payload["tasks"])
 
 
 def run(ctx):
@@ -722,8 +750,15 @@ def run(ctx):
         ctx.cov["wallet_clause"] = "skipped: no AES support"
     tasks.sort(key=lambda t: t["part"] != "strings")
     ctx.log(f"{len(tasks)} shards")
-    acc = core.pmap(work, tasks)
+    import concurrent.futures
+
+    otasks = [t for t in tasks if t["part"] == "corrupt"]
+    with concurrent.futures.ThreadPoolExecutor(1) as ex:
+        fut = ex.submit(core.call_in_child, "mc.checks.c15", "child_run", {"tasks": otasks}, True)
+        acc = core.pmap(work, tasks)
+        acc_o = fut.result()
     ctx.merge(acc)
+    ctx.merge(acc_o, part="corrupt-python-O")
     if acc.counters.get("bulk_distinct_cases"):
         ctx.cov["bulk_enumerated_distinct_cases"] = acc.counters["bulk_distinct_cases"]
         ctx.cov["explanation"] = (
